@@ -189,6 +189,28 @@ theorem paths_agree (t : Tables.T) (ns : Bytes) (now : Nat) (e : Entry) :
   rw [insertRemote_failed_iff, ← syncValidate_iff_valid]
   simp
 
+/-- **Local writes are well formed**: an entry that passes the guard of `Replica::insert` has a
+non-zero length and a non-empty hash, so every other replica's emptiness check accepts it — and a
+half-empty shape (empty hash with a length, or a hash with length zero) that the guard stops is
+exactly what the remote paths would refuse. -/
+theorem local_insert_guard_iff (e : Entry) :
+    insertGuard e = false ↔ (e.len ≠ 0 ∧ e.hash ≠ Entry.emptyHash) := by
+  unfold insertGuard
+  by_cases h1 : e.len = 0 <;> by_cases h2 : e.hash = Entry.emptyHash <;> simp [h1, h2]
+
+theorem local_insert_wellformed (e : Entry) (h : insertGuard e = false) : validateEmpty e = true := by
+  obtain ⟨h1, h2⟩ := (local_insert_guard_iff e).mp h
+  unfold validateEmpty
+  have a : (e.hash == Entry.emptyHash) = false := beq_false_of_ne h2
+  have b : (e.len == 0) = false := beq_false_of_ne h1
+  rw [a, b]; rfl
+
+theorem half_empty_is_refused_everywhere (e : Entry)
+    (h : (e.len = 0 ∧ e.hash ≠ Entry.emptyHash) ∨ (e.len ≠ 0 ∧ e.hash = Entry.emptyHash)) :
+    insertGuard e = true ∧ validateEmpty e = false := by
+  unfold insertGuard validateEmpty
+  rcases h with ⟨h1, h2⟩ | ⟨h1, h2⟩ <;> simp [h1, h2]
+
 /-! ### non-vacuity: the boundary of the future bound and the emptiness combinations -/
 
 private def good (ts len : Nat) (hash : Bytes) : Entry :=
